@@ -16,7 +16,7 @@ DIM_POOL = {
     "e": ("element", ["Fe", "Cu"], str),
     "s": ("scenario", [0, 1, 2], int),  # labels counted from zero (a valid label that is falsy)
 }
-PUNCT_NAMES = ["sorting -> plant", "re-use (B2B)", "märkt & co", "a/b split", "100% scrap", "end_of_life"]
+PUNCT_NAMES = ["sorting -> plant", "re-use (B2B)", "märkt & co", "a/b split", "100% scrap", "end_of_life", "use => reuse", "scrap_to_smelter", "Use Phase", "use"]
 
 
 class Def:
@@ -31,7 +31,7 @@ class Def:
         self.naming = "arrow"
 
 
-def gen_def(rng, max_proc=6, max_flows=12, max_stocks=3, hostile_names=False, n_time=None, self_loops=0.0, time_letter_variants=0.0, vary_items=False):
+def gen_def(rng, max_proc=6, max_flows=12, max_stocks=3, hostile_names=False, n_time=None, self_loops=0.0, time_letter_variants=0.0, vary_items=False, big_system=0.0):
     d = Def()
     nt = int(rng.integers(3, 6)) if n_time is None else n_time
     others = [l for l in "rmges"]
@@ -55,8 +55,13 @@ def gen_def(rng, max_proc=6, max_flows=12, max_stocks=3, hostile_names=False, n_
     # the order of the system's dimension list is arbitrary
     if rng.random() < 0.5:
         d.dims = [d.dims[i] for i in rng.permutation(len(d.dims))]
+    if rng.random() < big_system:
+        max_proc, max_flows = 30, 60
     np_ = int(rng.integers(0, max_proc + 1))
+    if max_proc > len(PROC_POOL) + len(PUNCT_NAMES):
+        pass
     pool = list(PROC_POOL) + (PUNCT_NAMES if hostile_names else [])
+    pool = pool + [f"process {j:02d}" for j in range(max(0, np_ - len(pool)))]
     names = [str(x) for x in rng.permutation(pool)[:np_]]
     d.processes = ["sysenv"] + names
     letters = [x[0] for x in d.dims]
